@@ -607,7 +607,7 @@ def cards_with_values(S, I, n, u_a, pools=("p1", "p2"), con_id="con"):
 LISTN = (("n0",), ("n1",), ("n2",), ("n3",))
 
 
-@script(["C02", "C03"], "Assorter.mean+sum/post (bounded: n cards)", variants=tuple((n[0], s) for n in LISTN for s in ("style", "nostyle")))
+@script(["C02", "C03", "C08"], "Assorter.mean+sum/post (bounded: n cards)", variants=tuple((n[0], s) for n in LISTN for s in ("style", "nostyle")))
 def assorter_mean_post(S, I, variant):
     n = int(variant[0][1:])
     use_style = variant[1] == "style"
@@ -634,7 +634,7 @@ def assorter_mean_post(S, I, variant):
         S.holds("mean of an empty population is NaN", xr(m).nan)
 
 
-@script(["C02", "C03"], "Assorter.mean+sum/post (unbounded number of cards)", variants=(("style",), ("nostyle",)), optional=True)
+@script(["C02", "C03", "C08"], "Assorter.mean+sum/post (unbounded number of cards)", variants=(("style",), ("nostyle",)), optional=True)
 def assorter_mean_unbounded(S, I, variant):
     use_style = variant[0] == "style"
     c = ctx()
